@@ -745,7 +745,7 @@ fn ftrl_points<F: Float>() -> Vec<(&'static str, FtP<F>)> {
     vec![
         ("default", Ftrl::params_with_rng(rng(42))),
         ("nondefault1", Ftrl::params_with_rng(rng(1)).alpha(F::cast(0.1)).beta(F::cast(1.0)).l1_ratio(F::cast(0.2)).l2_ratio(F::cast(0.3))),
-        ("nondefault2", Ftrl::params_with_rng(rng(2)).alpha(F::cast(0.1 + 0.2)).beta(F::cast(0.5)).l1_ratio(F::cast(0.0)).l2_ratio(F::cast(1.0))),
+        ("nondefault2", Ftrl::params_with_rng(rng(2)).alpha(F::cast(0.1 + 0.2)).beta(F::cast(0.7)).l1_ratio(F::cast(0.0)).l2_ratio(F::cast(1.0))),
         ("all_zero(alpha0,beta0,l1_0,l2_0)", Ftrl::params_with_rng(rng(3)).alpha(F::cast(0.0)).beta(F::cast(0.0)).l1_ratio(F::cast(0.0)).l2_ratio(F::cast(0.0))),
         ("extremes(l1_1,l2_1,alpha1e30)", Ftrl::params_with_rng(rng(4)).alpha(F::cast(1e30)).beta(F::cast(1e30)).l1_ratio(F::cast(1.0)).l2_ratio(F::cast(1.0))),
         ("invalid_alpha", Ftrl::params_with_rng(rng(3)).alpha(F::cast(-1.0))),
@@ -994,7 +994,7 @@ fn ica_points<F: Float>() -> Vec<(&'static str, linfa_ica::hyperparams::FastIcaP
     vec![
         ("default_seeded", FastIca::params().random_state(10)),
         ("2comp_exp", FastIca::params().ncomponents(2).gfunc(GFunc::Exp).random_state(3).max_iter(100).tol(F::cast(1e-3))),
-        ("2comp_logcosh1.5", FastIca::params().ncomponents(2).gfunc(GFunc::Logcosh(1.5)).random_state(usize::MAX >> 1)),
+        ("2comp_logcosh1.3", FastIca::params().ncomponents(2).gfunc(GFunc::Logcosh(1.1 + 0.2)).random_state(usize::MAX >> 1)),
         // Option<usize> parameters at Some(0) / Some(1) / Some(all), every GFunc variant, boundary numbers
         ("random_state0_1comp_cube", FastIca::params().ncomponents(1).gfunc(GFunc::Cube).random_state(0).max_iter(1).tol(F::cast(0.0))),
         ("ncomponents0_random_state_max", FastIca::params().ncomponents(0).random_state(usize::MAX).max_iter(0)),
